@@ -199,6 +199,7 @@ func cmdRun(args []string) {
 	// orchestrator re-runs that case alone
 	curPath := *obsPath + ".cur"
 	cur, _ := os.Create(curPath)
+	blocked := 0
 	caseTimeout := 10 * time.Second
 	if ct, ok := e.(interface{ caseTimeout() time.Duration }); ok {
 		caseTimeout = ct.caseTimeout()
@@ -209,6 +210,10 @@ func cmdRun(args []string) {
 			cur.WriteAt([]byte(p), 0)
 		}
 		extra := ""
+		ct := caseTimeout
+		if f, ok := e.(interface{ caseTimeoutFor(string) time.Duration }); ok {
+			ct = f.caseTimeoutFor(p)
+		}
 		o := safeRun(func() string {
 			if hasExtra {
 				var ob string
@@ -216,7 +221,7 @@ func cmdRun(args []string) {
 				return ob
 			}
 			return e.run(p)
-		}, caseTimeout)
+		}, ct)
 		if hasExtra {
 			fmt.Fprintf(rw, "%s\t%s\t%s\n", leanName, p, extra)
 		} else {
@@ -225,6 +230,14 @@ func cmdRun(args []string) {
 		fmt.Fprintf(ow, "%s\n", o)
 		classes[e.classify(p, o)]++
 		distinct[p] = struct{}{}
+		if strings.HasPrefix(o, "BLOCKED") {
+			// each blocked case costs a watchdog period and leaves goroutines behind: three of them settle the matter
+			blocked++
+			if blocked >= 3 {
+				classes["aborted-after-blocked"]++
+				break
+			}
+		}
 		if strings.HasPrefix(o, "HANG") {
 			// the hung evaluation keeps running in its goroutine and cannot be killed: stop here,
 			// the case is reported (a hang is a violation or a disagreement in every engine)
